@@ -366,9 +366,15 @@ func (h *hist) bootstrap(r *hx.Rng, names []string, minThr, maxThr int64, nops i
 		}
 		if u == 3 && r.Chance(50) {
 			amt = r.Range(1, minThr/100)
+			if feature == "negative" { // the bond-free creation permission skips every check of the amount
+				amt = -r.Range(1, 5000)
+			}
 		}
 		if feature == "max" && i == 0 {
 			amt = maxThr + r.Range(1, 1000000)
+		}
+		if feature == "negative" && i == 0 {
+			u, amt = 3, -r.Range(1, 5000)
 		}
 		h.create(u, n, amt, false, h.newParams(r, lpBig))
 		if r.Chance(30) {
@@ -504,7 +510,7 @@ func main() {
 	}
 
 	// ---- probes: which of the known defects does this tree have?
-	vPrefix, vZero, vCreate, vStale := probes(e, newHist)
+	vPrefix, vZero, vCreate, vStale, vNeg := probes(e, newHist)
 
 	var coq []string
 	var js []jcase
@@ -539,6 +545,8 @@ func main() {
 			}
 		case x == 11:
 			kind = "max"
+		case x == 1 && i%24 == 1:
+			kind = "negative"
 		case x == 2 || x == 8:
 			kind = "lpmsg"
 		case x == 4 || x == 6 || x == 10:
@@ -595,7 +603,7 @@ func main() {
 		f.WriteString(fmt.Sprintf("Definition U%d : string := %s.\n", i, hx.Str(u)))
 	}
 	f.WriteString("Definition users : list string := [U0; U1; U2; U3; U4].\n")
-	f.WriteString(fmt.Sprintf("Definition tree : variant := mkVariant %s %s %s %s.\n", hx.B(vPrefix), hx.B(vZero), hx.B(vCreate), hx.B(vStale)))
+	f.WriteString(fmt.Sprintf("Definition tree : variant := mkVariant %s %s %s %s %s.\n", hx.B(vPrefix), hx.B(vZero), hx.B(vCreate), hx.B(vStale), hx.B(vNeg)))
 	out.WriteFile("pre.v", f.String())
 	out.WriteFile("cases.txt", strings.Join(coq, "\n")+"\n")
 	out.WriteJSON("meta.json", map[string]string{"case_type": "c20_case", "mismatch_fn": "c20_mismatches tree users", "violation_fn": "c20_violations users"})
@@ -605,7 +613,7 @@ func main() {
 		steps += len(j.Steps)
 	}
 	out.WriteJSON("dist.json", map[string]interface{}{"seed": seed, "histories": len(js), "steps": steps, "by_kind": dist,
-		"variant": map[string]bool{"prefix_iteration": vPrefix, "zero_record_blocks_refund": vZero, "creation_bond_unchecked": vCreate, "convert_swaps_into_stale_record": vStale}, "users": e.ustr})
+		"variant": map[string]bool{"prefix_iteration": vPrefix, "zero_record_blocks_refund": vZero, "creation_bond_unchecked": vCreate, "convert_swaps_into_stale_record": vStale, "negative_creation_bond_accepted": vNeg}, "users": e.ustr})
 	fmt.Fprintf(os.Stderr, "c20: %d histories, %d steps\n", len(js), steps)
 }
 
@@ -715,7 +723,7 @@ func (h *hist) keeperOps(r *hx.Rng, names []string) {
 }
 
 // probes: three tiny experiments on the real keeper / msg server
-func probes(e *env, newHist func(min, max, dur uint64) *hist) (prefix, zero, create, stale bool) {
+func probes(e *env, newHist func(min, max, dur uint64) *hist) (prefix, zero, create, stale, neg bool) {
 	{
 		h := newHist(1, 10, 1000)
 		e.k.SetUserDappBond(h.c, l2types.UserDappBond{User: e.ustr[0], DappName: "probeab", Bond: coin("ukex", 5)})
@@ -732,6 +740,10 @@ func probes(e *env, newHist func(min, max, dur uint64) *hist) (prefix, zero, cre
 	{
 		h := newHist(1, 10, 1000)
 		create = h.create(0, "probem", 10000001, false, params{Denom: "probem", Ratio: "1", Fee: "0"})
+	}
+	{
+		h := newHist(1, 10, 1000)
+		neg = h.create(3, "proben", -5, false, params{Denom: "proben", Ratio: "1", Fee: "0"})
 	}
 	{
 		h := newHist(1, 10, 100)
